@@ -1201,6 +1201,14 @@ class C13(L1Prop):
             ops, g = rand_prefix(rng, rng.randint(8, length), nc, k % 5 == 0, True, True, obs)
             ops += ["reopen", "dumpall", "rows"]
             out.append(Case(f"c13-{k}", ops))
+        # a chain that starts on a version the server never stored, and an upload for exactly that version
+        for k in range(sizes(tier, 10, 60)):
+            more = k % 5
+            ops = ["ensure 1", "av 1 fresh b:1"] + [f"av 1 latest:1 b:2,{i}" for i in range(more)]
+            if k % 2:
+                ops += [f"as 1 latest:1 b:7", "av 1 latest:1 b:3"]
+            ops += ["dumpall", "as 1 base:1 b:9,9", "gs 1", "dumpall", "rows", "av 1 latest:1 b:4", "dumpall", "reopen", "gs 1"]
+            out.append(Case(f"c13-base-{k}", ops))
         return out
     def relevant(self, i, trace):
         return False      # responses across backends are compared directly (cross); raw rows belong to C19
@@ -1225,6 +1233,7 @@ class C13(L1Prop):
 # ------------------------------------------------------------------ C18
 class C18(L1Prop):
     id = "C18"
+    overlap = True
     rule = ("random histories with a complete dump of ALL clients (and the raw SQLite rows) before and after every "
             "operation; after GetChildVersion, GetSnapshot, a conflicting AddVersion, a request for an unknown client "
             "and a declined AddSnapshot (declined as decided by the acceptance rule, not by observing the state) the "
@@ -1238,6 +1247,17 @@ class C18(L1Prop):
                 return ["dumpall", "rows"]
             ops, g = rand_prefix(rng, rng.randint(6, length), nc, k % 2 == 0, False, True, obs)
             out.append(Case(f"c18-{k}", ["dumpall", "rows"] + ops))
+        # a request that is refused because a storage statement failed half way leaves nothing behind
+        for k in range(sizes(tier, 8, 60)):
+            n = rng.randint(1, 5)
+            ops = ["ensure 1", "ensure 2", "av 2 nil b:2"] + [f"av 1 {'nil' if i == 0 else 'latest:1'} b:1,{i}" for i in range(n)]
+            if rng.random() < 0.5:
+                ops.append("as 1 latest:1 b:9")
+            for j in range(rng.randint(1, 3)):
+                tbl, stmt, req = rng.choice([("clients", "UPDATE", f"av 1 latest:1 b:6,{j}"), ("versions", "INSERT", f"av 1 latest:1 b:6,{j}"),
+                                             ("clients", "UPDATE", f"as 1 latest:1 b:8,{j}")])
+                ops += ["dumpall", "rows", f"sqlfault {tbl} {stmt} 2", req, "dumpall", "rows", f"av 1 latest:1 b:3,{j}"]
+            out.append(Case(f"c18-sqlfault-{k}", ["dumpall", "rows"] + ops, {"only": "sqlite", "faults": True}))
         from .props_http import refusal_cases
         out += refusal_cases(rng, sizes(tier, 6, 60))
         return out
@@ -1269,11 +1289,14 @@ class C18(L1Prop):
             from .props_http import refusal_oracle
             return refusal_oracle(case, trace, backend)
         fails, tr = [], SnapTracker()
+        trace = [t for t in trace if not t[0].startswith(("fault ", "mark fired"))]
         for i, (o, ri, rm) in enumerate(trace):
             op = Op(o)
             pure = False
             if op.kind in ("gcv", "gs"):
                 pure = True
+            elif op.kind in ("av", "as") and resp_kind(ri) == "error" and case.meta.get("faults"):
+                pure = True          # refused: the storage step failed before anything was committed
             elif op.kind == "av" and resp_kind(ri) in ("conflict", "noclient"):
                 pure = True
             elif op.kind == "as":
